@@ -1,18 +1,17 @@
 (* Props/C16.v — rollback is bounded by retention and refuses rather than guesses (raw vectors; code as of
-   533ea26).  Statements only.  Parser / directory / refusal theorems are for ALL byte strings, ALL records,
-   ALL states and ALL element types.
-   Proved at full strength: C16_record_roundtrip, C16_prefix, C16_truncation_of_any_accepted_input,
-   C16_lenfields, C16_parser_total, C16_dir (whole commit; also C16_abandoned_future: nothing above the stamp
-   committed from survives except the new record), C16_fail_single (EVERY refusal leaves the whole state
-   unchanged), C16_missing_record_refused, C16_truncated_record_refused, C16_rollback_never_panics,
-   C16_fail_before (a refused rollback_before stands exactly where n successful single rollbacks lead),
-   C16_rollback_before_ok, C16_retention_zero_disables_recording.
-   NOT closed unbounded: C16_count and C16_only_committed — both need "a successful rollback lands on the
-   previous committed snapshot", i.e. C04_rollback_step (see Props/C04.v for what is missing); C16_count is
-   proved bounded (retention 0..6 and 10, up to 8 commits), C16_only_committed follows from
-   C16_fail_single + C16_fail_before + C04 where C04 holds (bounded: C04_continuation_partial). *)
+   397122a).  Statements only.  ALL byte strings, ALL records, ALL states, ALL element types.
+   Parser (a record must be consumed exactly, fix 397122a): C16_record_roundtrip, C16_prefix, C16_truncation_of_any_accepted_input
+   (every strict prefix of ANY accepted input is refused), C16_trailing_bytes_rejected, C16_lenfields (an accepted
+   input is consumed exactly: the cursor ends at its end), C16_parser_total.
+   Directory: C16_dir (whole commit; also C16_abandoned_future).
+   Refusals: C16_fail_single (EVERY refused single rollback leaves the whole state unchanged), C16_fail_before,
+   C16_rollback_before_ok, C16_missing_record_refused, C16_truncated_record_refused, never-panics, retention zero.
+   Retention: C16_count, UNBOUNDED — after any strict run of commits (any edits in between) with retention k > 0
+   exactly min k (number of commits) successive rollbacks succeed and the next is refused with the vector unchanged;
+   C16_count_from_any_state for any state satisfying K.  C16_only_committed: every successful rollback lands exactly
+   on a retained committed snapshot (C04_rollback_step / C04_chain: view = snapshot contents, stamp = its stamp). *)
 From Anydb Require Import Common.Base Common.LE Vec.RegionSpec Vec.RvBase Vec.RvChange Vec.RvChangeProofs
-  Vec.RvModel Vec.RvRollback Vec.RvRollbackProofs Vec.RvSpec Vec.RvInst Vec.RvFindings Vec.RvStatements.
+  Vec.RvModel Vec.RvRollback Vec.RvRollbackProofs Vec.RvSpec Vec.RvRefine Vec.RvChain Vec.RvInst Vec.RvFindings Vec.RvStatements.
 
 Theorem C16_record_roundtrip :
   forall (T : Type) (tsize : N) (enc : T -> list N) (dec : list N -> T),
@@ -30,16 +29,26 @@ Proof. exact @prefix_rejected. Qed.
 Print Assumptions C16_prefix.
 
 Theorem C16_truncation_of_any_accepted_input :
-  forall (T : Type) (tsize : N) (dec : list N -> T) bytes x c' m,
-  parse_raw_change_cur tsize dec (mkCur bytes 0) = Ok (x, c') -> m < c_pos c' ->
-  exists e, parse_raw_change_data tsize dec (take m bytes) = Err e.
-Proof. exact @parse_truncated_fails. Qed.
+  forall (T : Type) (tsize : N) (dec : list N -> T) (bytes : list N) (x : raw_change_data) (m : N),
+  parse_raw_change_data tsize dec bytes = Ok x -> m < len bytes ->
+  exists e : verr, parse_raw_change_data tsize dec (take m bytes) = Err e.
+Proof. exact @accepted_prefix_rejected. Qed.
 Print Assumptions C16_truncation_of_any_accepted_input.
 
+Theorem C16_trailing_bytes_rejected :
+  forall (T : Type) (tsize : N) (dec : list N -> T), 0 < tsize ->
+  forall (bytes : list N) (x : raw_change_data) (extra : list N),
+  parse_raw_change_data tsize dec bytes = Ok x -> extra <> [] ->
+  exists e : verr, parse_raw_change_data tsize dec (bytes ++ extra) = Err e.
+Proof. exact @trailing_bytes_rejected. Qed.
+Print Assumptions C16_trailing_bytes_rejected.
+
+(* an accepted input is consumed exactly: the length fields it carries add up to the whole input *)
 Theorem C16_lenfields :
-  forall (T : Type) (tsize : N) (dec : list N -> T) bytes x c',
-  parse_raw_change_cur tsize dec (mkCur bytes 0) = Ok (x, c') -> c_pos c' <= len bytes.
-Proof. exact @parse_pos_bound. Qed.
+  forall (T : Type) (tsize : N) (dec : list N -> T) (bytes : list N) (x : raw_change_data),
+  parse_raw_change_data tsize dec bytes = Ok x ->
+  parse_raw_change_cur tsize dec (mkCur bytes 0) = Ok (x, mkCur bytes (len bytes)).
+Proof. exact @parse_ok_inv. Qed.
 Print Assumptions C16_lenfields.
 
 Theorem C16_parser_total :
@@ -113,7 +122,21 @@ Theorem C16_retention_zero_disables_recording :
 Proof. exact @commit_k0_is_stamped_write. Qed.
 Print Assumptions C16_retention_zero_disables_recording.
 
-Theorem C16_count_partial :
-  forallb (fun k0 => forallb (count_ok k0) (seq 0 9)) [0; 1; 2; 3; 4; 5; 6; 10] = true.
-Proof. exact C16_count_bounded. Qed.
-Print Assumptions C16_count_partial.
+Theorem C16_count :
+  forall (T : Type) (tsize : N) (enc : T -> list N) (dec : list N -> T),
+  0 < tsize -> (forall v : T, len (enc v) = tsize) -> (forall v : T, dec (enc v) = v) ->
+  forall (k0 : N) (h : list op), 0 < k0 -> no_rollbacks h -> final_ed false h = false ->
+  strict tsize enc dec false (rv_init k0) (sv_init k0) h ->
+  exists s' : rv,
+    rollbacks_ok tsize dec (Nat.min (N.to_nat k0) (n_commits h)) (run tsize enc dec (rv_init k0) h) s' /\
+    rv_rollback tsize dec s' = (s', Err EIO).
+Proof. exact @count. Qed.
+Print Assumptions C16_count.
+
+Theorem C16_count_from_any_state :
+  forall (T : Type) (tsize : N) (enc : T -> list N) (dec : list N -> T),
+  0 < tsize -> (forall v : T, len (enc v) = tsize) -> (forall v : T, dec (enc v) = v) ->
+  forall (s : rv) (a : sv T), K tsize enc dec s a -> Clean s ->
+  exists s' : rv, rollbacks_ok tsize dec (length (committed a)) s s' /\ rv_rollback tsize dec s' = (s', Err EIO).
+Proof. exact @rollback_count. Qed.
+Print Assumptions C16_count_from_any_state.
